@@ -81,7 +81,13 @@ func ansiExtract(prev string, data []byte) string {
 			os = "_"
 		}
 	}
-	return fmt.Sprintf("%s %s %s", encStr(trimmed), os, encAnsiState(state))
+	ans := fmt.Sprintf("%s %s %s", encStr(trimmed), os, encAnsiState(state))
+	// the state handed in is kept by the callers (the colour carried from field to field and from line
+	// to line): extractColor must leave it as it was
+	if !fzf.VerifExtractColorKeepsInput(string(data), decAnsiState(prev)) {
+		ans += " input-state-modified"
+	}
+	return ans
 }
 
 func sgrParam(op string) string {
